@@ -4,94 +4,176 @@ import Splipy.Lemmas.C11Run
 # Property C11 — non-in-place operations neither modify nor alias their operands
 
 These are **full statements about the heap model** `Splipy.Heap` (buffers, basis records, objects;
-`Splipy/Model/Heap.lean`), unbounded over histories.  The link to the Python library is the
-*contract table*: each public operation is assigned one of the contracts
-`query | fresh | inPlace | procedure | procedureAll`, and the theorems below hold for **every**
-transition allowed by these contracts (`InPlaceStep`, `FreshStep`, `QueryStep`) and for every
-executable step/history of the model (`step`, `run`), for arbitrary payloads.
+`Splipy/Model/Heap.lean`), unbounded over histories.
 
-PREMISE (not proved here, validated dynamically): that a given Python operation behaves as its
-contract says.  The correspondence run of `./check C11` measures, for every operation × operand
-class, the real write set (bit-for-bit snapshots), the real sharing graph (`numpy.shares_memory`,
-`is`) and the returns-receiver flag and compares them with what this model predicts for the
-contract; the table's totality over the public API is re-proved from the live source on every run
-(`Splipy/Generated/C11Obligations.lean`, theorem `C11_contract_table_total`).  For that reason the
-property as a whole is reported as *partial*: the theorems are complete for the model, the
-per-operation premises are tested, not derived from the Python source.
+* The contracts `query | fresh | inPlace | procedure | procedureAll` are given a relational
+  semantics by what a transition may DO (`InPlaceStep`, `FreshStep`, `QueryStep`: allocate cells,
+  overwrite only cells owned by the receiver, reference only owned or freshly allocated cells).
+  Well-formedness of the resulting heap is **proved** from that (`C11_wellformed_preserved`), it is
+  not part of the relations.
+* Operations are executed literally by `exec` on contract-agnostic descriptions `RawOp` that receive
+  the operand references and CAN alias operand cells, write through operands and return views.
+  The theorems hold for operations that respect their contract (`RawOp.respects c`, decidable);
+  `C11_contract_violations_are_expressible_and_break_it` shows that they fail for operations that
+  do not — they are not true by construction of the model.
+
+PREMISE (not proved here): that a given Python operation behaves as its contract says.  It is
+(a) validated dynamically by the correspondence run of `./check C11` for every operation × operand
+class (real write set, real sharing graph, returns-receiver flag, isolation experiment) and
+(b) checked against an effect summary inferred from the current source
+(`C11_contracts_consistent_with_source`, `Splipy/Generated/C11Obligations.lean`); the table's
+totality over the public API is re-proved from the live source on every run
+(`C11_contract_table_total`).  For that reason the property as a whole is reported as *partial*.
 -/
 
 open Splipy.Heap
 
+/-- **Well-formedness is a consequence, not an assumption.**  A transition that only does what the
+in-place contract (resp. the fresh/query contract) allows leads from a well-formed heap to a
+well-formed heap. -/
+theorem C11_wellformed_preserved :
+    (∀ (h h' : Heap) (i : Nat), WF h → InPlaceStep h h' i → WF h') ∧
+    (∀ (h h' : Heap), WF h → FreshStep h h' → WF h') ∧
+    (∀ (h h' : Heap), WF h → QueryStep h h' → WF h') :=
+  ⟨fun _ _ _ w st => st.wf w, fun _ _ w st => st.wf w, fun _ _ w st => st.fresh.wf w⟩
+
 /-- **Separation invariant.**  "The heap is well formed and distinct live top-level objects own
 disjoint sets of buffers and disjoint sets of basis records" (`Invariant h = WF h ∧ Sep h`)
-(1) holds initially, (2) is preserved by every contract-respecting transition, hence
-(3) holds after every finite history of such transitions, and (4) in particular after every
-history of the executable model, from any heap satisfying it, whatever the payloads. -/
+(1) holds initially, (2) is preserved by every contract-respecting transition, hence (3) holds after
+every finite history of such transitions; (4) it is preserved by `exec` for every operation all of
+whose actions conform (whatever it writes, builds or returns), hence (5) along every history of
+operations that respect their contracts. -/
 theorem C11_separation_invariant :
     Invariant Heap.empty ∧
     (∀ h h', Invariant h → ContractStep h h' → Invariant h') ∧
     (∀ h, Reachable h → Invariant h) ∧
-    (∀ h (ops : List Op), Invariant h → Invariant (run h ops)) :=
-  ⟨inv_empty, fun _ _ hi st => st.inv hi, fun _ r => r.inv, fun _ ops hi => run_inv hi ops⟩
+    (∀ (h : Heap) (op : RawOp), Invariant h → op.conforming = true → Invariant (exec h op).1) ∧
+    (∀ (h : Heap) (hist : List (Contract × RawOp)), Invariant h →
+        (∀ e ∈ hist, e.2.respects e.1 = true) → Invariant (run h hist)) :=
+  ⟨inv_empty, fun _ _ hi st => st.inv hi, fun _ r => r.inv, fun _ _ hi hc => exec_inv hi hc,
+   fun _ _ hi hr => run_inv hi hr⟩
 
 /-- **Isolation.**  Under the invariant:
-(a) a transition under the in-place contract with receiver `i` (any sequence of writes through
-    `i`) leaves every other live object `j ≠ i` the same object with the same observation
-    (`controlpoints`, every basis' `knots`/`order`/`periodic`, `dimension`, `rational`);
-(b) a `fresh` or `query` transition leaves **every** pre-existing object the same, with the same
-    observation;
-(c) the same for the executable model: after any step, and after any history, a handle that is
-    not a receiver of (any of) the operation(s) is the same object with the same observation. -/
+(a) a transition under the in-place contract with receiver `i` leaves every other live object
+    `j ≠ i` the same object with the same observation (`controlpoints`, every basis'
+    `knots`/`order`/`periodic`, `dimension`, `rational`);
+(b) a `fresh` or `query` transition leaves **every** pre-existing object the same;
+(c) after `exec` of an operation that respects contract `c`, and (d) after a history of such
+    operations, a handle that is not a receiver allowed by the contract(s) — none for
+    `query`/`fresh`, the first operand for `inPlace`/`procedure`, the operands for `procedureAll` —
+    is the same object with the same observation. -/
 theorem C11_isolation :
     (∀ (h h' : Heap) (i j : Nat) (b : Obj), WF h → Sep h → InPlaceStep h h' i → j ≠ i →
         h.objs[j]? = some b → h'.objs[j]? = some b ∧ observe h' b = observe h b) ∧
     (∀ (h h' : Heap) (j : Nat) (b : Obj), WF h → (FreshStep h h' ∨ QueryStep h h') →
         h.objs[j]? = some b → h'.objs[j]? = some b ∧ observe h' b = observe h b) ∧
-    (∀ (h : Heap) (op : Op) (j : Nat), Invariant h → j ∉ op.receivers → Same h (step h op).1 j) ∧
-    (∀ (h : Heap) (ops : List Op) (j : Nat), Invariant h → (∀ op ∈ ops, j ∉ op.receivers) →
-        Same h (run h ops) j) := by
-  refine ⟨?_, ?_, fun h op j hi hj => step_same hi op hj, fun h ops j hi hj => run_same hi ops hj⟩
+    (∀ (h : Heap) (c : Contract) (op : RawOp) (j : Nat), Invariant h → op.respects c = true →
+        j ∉ op.receivers c → Same h (exec h op).1 j) ∧
+    (∀ (h : Heap) (hist : List (Contract × RawOp)) (j : Nat), Invariant h →
+        (∀ e ∈ hist, e.2.respects e.1 = true) → (∀ e ∈ hist, j ∉ e.2.receivers e.1) →
+        Same h (run h hist) j) := by
+  refine ⟨?_, ?_, fun h c op j hi hr hj => exec_same hi hr hj, fun h hist j hi hr hj => run_same hi hr hj⟩
   · intro h h' i j b w s st hji hb
     obtain ⟨h1, h2, _⟩ := st.isolation w s hji hb
     exact ⟨h1, h2⟩
   · intro h h' j b w st hb
     rcases st with st | st
     · obtain ⟨h1, h2, _⟩ := st.isolation w hb; exact ⟨h1, h2⟩
-    · obtain ⟨h1, h2, _⟩ := (st.fresh w).isolation w hb; exact ⟨h1, h2⟩
+    · obtain ⟨h1, h2, _⟩ := st.fresh.isolation w hb; exact ⟨h1, h2⟩
 
-/-- **In-place operations return their receiver; the others return nothing that existed.**
-An `inPlace` step returns exactly the receiver's handle; a `procedure`/`procedureAll` step returns
-nothing; a `fresh` step returns only handles that did not exist before; a `query` step returns a
-scalar or a buffer id that did not exist before. -/
+/-- **What is returned.**  An operation that respects
+* `inPlace` returns exactly its receiver (the first operand reference);
+* `procedure` / `procedureAll` returns nothing;
+* `fresh` returns nothing, or only handles that did not exist before, or an array that no live
+  object owns;
+* `query` returns nothing, a scalar, or an array that no live object owns. -/
 theorem C11_inplace_returns_receiver :
-    (∀ h recv others prog, (step h (.inPlace recv others prog true)).2 = .handles [recv]) ∧
-    (∀ h recv others prog, (step h (.inPlace recv others prog false)).2 = .none) ∧
-    (∀ h progs, (step h (.inPlaceAll progs)).2 = .none) ∧
-    (∀ h args news, ∃ hs, (step h (.fresh args news)).2 = .handles hs ∧ ∀ k ∈ hs, h.objs.length ≤ k) ∧
-    (∀ h args d, (step h (.query args (some d))).2 = .buffer h.bufs.length) ∧
-    (∀ h args, (step h (.query args none)).2 = .scalar) := by
-  refine ⟨fun _ _ _ _ => rfl, fun _ _ _ _ => rfl, fun _ _ => rfl, ?_, fun _ _ _ => rfl, fun _ _ => rfl⟩
-  intro h args news
-  refine ⟨_, rfl, ?_⟩
-  intro k hk
-  simp only [List.mem_range'] at hk
-  obtain ⟨i, _, rfl⟩ := hk
-  omega
+    (∀ (h : Heap) (op : RawOp), op.respects .inPlace = true →
+        ∃ r rest, op.args = r :: rest ∧ (exec h op).2 = .handles [r]) ∧
+    (∀ (h : Heap) (op : RawOp), (op.respects .procedure = true ∨ op.respects .procedureAll = true) →
+        (exec h op).2 = .none) ∧
+    (∀ (h : Heap) (op : RawOp), Invariant h → op.respects .fresh = true →
+        (exec h op).2 = .none ∨
+        (∃ hs, (exec h op).2 = .handles hs ∧ ∀ k ∈ hs, h.objs.length ≤ k) ∨
+        (∃ id, (exec h op).2 = .buffer id ∧ bufferSharers (exec h op).1 id = [])) ∧
+    (∀ (h : Heap) (op : RawOp), Invariant h → op.respects .query = true →
+        (exec h op).2 = .none ∨ (exec h op).2 = .scalar ∨
+        (∃ id, (exec h op).2 = .buffer id ∧ bufferSharers (exec h op).1 id = [])) := by
+  refine ⟨?_, ?_, ?_, ?_⟩
+  · intro h op hr
+    simp only [RawOp.respects, Bool.and_eq_true, Bool.not_eq_true', beq_iff_eq] at hr
+    have hret : op.ret = .receiver := hr.2.2
+    have hargs : op.args.isEmpty = false := hr.2.1.2
+    cases ha : op.args with
+    | nil => simp [ha] at hargs
+    | cons r rest =>
+      refine ⟨r, rest, rfl, ?_⟩
+      rw [exec_snd, hret, ha]
+  · intro h op hr
+    have hret : op.ret = .none := by
+      rcases hr with hr | hr <;>
+        · simp only [RawOp.respects, Bool.and_eq_true, beq_iff_eq] at hr
+          exact hr.2.2
+    rw [exec_snd, hret]
+  · intro h op hi hr
+    have hw := respects_no_writes (Or.inr rfl) hr
+    have hc := respects_conforming hr
+    have hc' := hc
+    simp only [RawOp.conforming, Bool.and_eq_true] at hc'
+    have i2 := buildObjs_inv (applyWrites_inv hi hc'.1) hc'.2
+    simp only [RawOp.respects, Bool.and_eq_true] at hr
+    cases hret : op.ret with
+    | none => left; rw [exec_snd, hret]
+    | newObjects =>
+      right; left
+      refine ⟨_, by rw [exec_snd, hret], ?_⟩
+      intro k hk
+      simp only [List.mem_range'] at hk
+      obtain ⟨i, _, rfl⟩ := hk
+      simp only [hw, applyWrites, List.foldl_nil]; omega
+    | newBuffer d =>
+      right; right
+      refine ⟨_, by rw [exec_snd, hret], ?_⟩
+      have : (exec h op).1 = allocBuf (buildObjs (applyWrites h op.writes) op.news) d := by
+        rw [exec_fst, hret]
+      rw [this]
+      exact bufferSharers_allocBuf i2.1 d
+    | scalar => rw [hret] at hr; simp at hr
+    | bufferOf _ => rw [hret] at hr; simp at hr
+    | receiver => rw [hret] at hr; simp at hr
+  · intro h op hi hr
+    have hc := respects_conforming hr
+    have hc' := hc
+    simp only [RawOp.conforming, Bool.and_eq_true] at hc'
+    have i2 := buildObjs_inv (applyWrites_inv hi hc'.1) hc'.2
+    simp only [RawOp.respects, Bool.and_eq_true] at hr
+    cases hret : op.ret with
+    | none => left; rw [exec_snd, hret]
+    | scalar => right; left; rw [exec_snd, hret]
+    | newBuffer d =>
+      right; right
+      refine ⟨_, by rw [exec_snd, hret], ?_⟩
+      have : (exec h op).1 = allocBuf (buildObjs (applyWrites h op.writes) op.news) d := by
+        rw [exec_fst, hret]
+      rw [this]
+      exact bufferSharers_allocBuf i2.1 d
+    | newObjects => rw [hret] at hr; simp at hr
+    | bufferOf _ => rw [hret] at hr; simp at hr
+    | receiver => rw [hret] at hr; simp at hr
 
-/-- **The predicted observables.**  After every history of the executable model started from a
-heap satisfying the invariant: the sharing graph over live handles has no edge; the write set of
-every step is within the receivers of the operation (empty for `query`/`fresh`); the array returned
-by a `query` step is owned by no live object. -/
+/-- **The predicted observables.**  After every history of operations that respect their contracts,
+started from a heap satisfying the invariant, the sharing graph over live handles has no edge; and
+the write set of every operation that respects its contract is within the receivers the contract
+allows (empty for `query`/`fresh`). -/
 theorem C11_predicted_observables :
-    (∀ (h : Heap) (ops : List Op), Invariant h → sharingEdges (run h ops) = []) ∧
-    (∀ (h : Heap) (op : Op), Invariant h → ∀ j ∈ writeSet h (step h op).1, j ∈ op.receivers) ∧
-    (∀ (h : Heap) (args : List Nat) (d : List Int), Invariant h →
-        bufferSharers (step h (.query args (some d))).1 h.bufs.length = []) :=
-  ⟨fun _ ops hi => sharingEdges_nil_of_sep (run_inv hi ops).2,
-   fun _ op hi => writeSet_subset_receivers hi op,
-   fun _ _ d hi => bufferSharers_allocBuf hi.1 d⟩
+    (∀ (h : Heap) (hist : List (Contract × RawOp)), Invariant h →
+        (∀ e ∈ hist, e.2.respects e.1 = true) → sharingEdges (run h hist) = []) ∧
+    (∀ (h : Heap) (c : Contract) (op : RawOp), Invariant h → op.respects c = true →
+        ∀ j ∈ writeSet h (exec h op).1, j ∈ op.receivers c) :=
+  ⟨fun _ _ hi hr => sharingEdges_nil_of_sep (run_inv hi hr).2,
+   fun _ _ _ hi hr => writeSet_subset_receivers hi hr⟩
 
-/-! ## Non-vacuity: a concrete history, and what goes wrong without the contracts -/
+/-! ## A concrete history, and the refutations -/
 
 namespace C11Examples
 
@@ -99,41 +181,96 @@ def curveSpec : ObjSpec := { bases := [⟨3, -1, [0, 0, 0, 1, 1, 1]⟩], cps := 
 def surfSpec : ObjSpec :=
   { bases := [⟨2, -1, [0, 0, 1, 1]⟩, ⟨3, 0, [-1, 0, 1, 2, 3]⟩], cps := [5, 6, 7, 8], dimension := 3, rational := true }
 
-/-- curve, surface, `surface.swap()`-like in-place step, `curve.clone()`-like fresh step,
-    `curve.evaluate()`-like query, in-place on the curve. -/
-def history : List Op :=
-  [ .fresh [] [curveSpec, surfSpec],
-    .inPlace 1 [] [.swapBases 0 1, .rebindCps [8, 7, 6, 5], .setRec 0 2 (-1) none] true,
-    .fresh [0] [curveSpec],
-    .query [0] (some [9, 9]),
-    .inPlace 0 [2] [.writeCps [4, 4, 4], .writeKnots 0 [0, 0, 0, 2, 2, 2], .rebindBasis 0 4 (-1) [0, 0, 0, 0, 1, 1, 1, 1]] true ]
+/-- two constructors, `surface.swap()`-like in-place step, `curve.clone()`, `curve.evaluate()`,
+    `curve.append(clone)`-like in-place step with a second operand. -/
+def history : List (Contract × RawOp) :=
+  [ (.fresh, { args := [], writes := [], news := [(curveSpec, []), (surfSpec, [])], ret := .newObjects }),
+    (.inPlace, { args := [1], writes := [(1, [.prim (.swapBases 0 1), .prim (.rebindCps [8, 7, 6, 5]), .prim (.setRec 0 2 (-1) none)])],
+                 news := [], ret := .receiver }),
+    (.fresh, { args := [0], writes := [], news := [(curveSpec, [])], ret := .newObjects }),
+    (.query, { args := [0], writes := [], news := [], ret := .newBuffer [9, 9] }),
+    (.inPlace, { args := [0, 2], writes := [(0, [.prim (.writeCps [4, 4, 4]), .prim (.writeKnots 0 [0, 0, 0, 2, 2, 2]),
+                                                .prim (.rebindBasis 0 4 (-1) [0, 0, 0, 0, 1, 1, 1, 1])])],
+                 news := [], ret := .receiver }) ]
 
+def before : Heap := run Heap.empty (history.take 4)
 def heap : Heap := run Heap.empty history
 
-/-- The invariant's hypotheses are satisfiable by a non-trivial heap: three live objects,
-    ten buffers, five basis records — checked by evaluation, independently of the theorem. -/
+example : ∀ e ∈ history, e.2.respects e.1 = true := by decide
+/-- The invariant's hypotheses are satisfiable by a non-trivial heap (three live objects, ten
+    buffers, five basis records) — checked by evaluation, independently of the theorem … -/
 example : heap.objs.length = 3 ∧ wfB heap = true ∧ sepB heap = true := by decide
 example : Invariant heap := ⟨wfB_sound (by decide), sepB_sound (by decide)⟩
 /-- … and it is what the theorem says. -/
-example : Invariant heap := C11_separation_invariant.2.2.2 _ history C11_separation_invariant.1
+example : Invariant heap := C11_separation_invariant.2.2.2.2 _ history C11_separation_invariant.1 (by decide)
+/-- The in-place step really writes: the receiver's observation changes, while the clone made before
+    (handle 2, the second operand) and the surface (handle 1) observe the same. -/
+example : observeAt heap 0 ≠ observeAt before 0 ∧ observeAt heap 2 = observeAt before 2
+    ∧ observeAt heap 1 = observeAt before 1 := by decide
+example : sharingEdges heap = [] ∧ writeSet before heap = [0] := by decide
 
-/-- The in-place steps really write: the receiver's observation changes … -/
-example : observeAt heap 0 ≠ observeAt (run Heap.empty (history.take 4)) 0 := by decide
-/-- … while the clone made before (handle 2) and the surface (handle 1) observe the same. -/
-example : observeAt heap 2 = observeAt (run Heap.empty (history.take 4)) 2
-    ∧ observeAt heap 1 = observeAt (run Heap.empty (history.take 4)) 1 := by decide
-example : sharingEdges heap = [] ∧ writeSet (run Heap.empty (history.take 4)) heap = [0] := by decide
+/-! ### Operations that VIOLATE their contract (the defects this check found in the library, in
+model form).  `exec` performs them just the same. -/
 
-/-- A step that violates the contracts — handing out a *view* of the operand's control points, the
-    unfixed shape of `section()`'s point case (repaired in the library since) — breaks the invariant, shows up in the sharing graph, and
-    then a write through the operand IS observed through the result: the premise matters. -/
-def aliased : Heap := aliasView heap 0
-example : sepB aliased = false ∧ sharingEdges aliased = [(0, 3)] := by decide
-example : ¬ Sep aliased := by
-  intro s
-  have h0 : aliased.objs[0]? = some ⟨[4], 1, 2, false⟩ := by decide
-  have h3 : aliased.objs[3]? = some ⟨[], 1, 2, false⟩ := by decide
-  exact (s 0 3 _ _ (by decide) h0 h3).1 1 (by decide) (by decide)
-example : observeAt (applyPrim aliased 0 (.writeCps [0, 0, 0])) 3 ≠ observeAt aliased 3 := by decide
+/-- `section()` in its old point case: a "fresh" object whose control points are a VIEW of the
+    operand's buffer. -/
+def viewResult : RawOp := { args := [0], writes := [], news := [(curveSpec, [.aliasCps 0])], ret := .newObjects }
+/-- the infix operators starting from `copy.copy(self)` (seeded change C11_1): the result shares
+    the operand's basis record. -/
+def sharedBasis : RawOp := { args := [0], writes := [], news := [(curveSpec, [.aliasBasis 0 0 0])], ret := .newObjects }
+/-- `volume_factory.extrude` before it was repaired: a "fresh" operation that writes through its operand. -/
+def writesOperand : RawOp := { args := [0], writes := [(0, [.prim (.setScalars 3 false), .prim (.rebindCps [1, 2, 3, 0])])],
+                                news := [(surfSpec, [])], ret := .newObjects }
+/-- a "query" that returns a view of the operand's control points. -/
+def returnsView : RawOp := { args := [0], writes := [], news := [], ret := .bufferOf 0 }
+/-- `SplineModel.add` / `Curve.append` keeping the other operand's cells: an in-place operation whose
+    receiver 2 ends up referencing the control points of operand 0. -/
+def retainsOperand : RawOp := { args := [2, 0], writes := [(2, [.aliasCps 0])], news := [], ret := .receiver }
 
 end C11Examples
+
+open C11Examples in
+/-- **The theorems are not true by construction of the model.**  Operations that do NOT respect
+their contract are expressible, `exec` performs them, and from a heap that satisfies the invariant
+they
+(1) break separation (a result that is a view of, or shares a basis record with, its operand; an
+    in-place receiver that retains another operand's buffer) — visible in the sharing graph —
+    after which a write through the operand IS observed through the result;
+(2) change the observation of an operand of a "fresh" operation (while the invariant survives:
+    separation alone does not imply isolation, the write permission of the contract does);
+(3) hand out an array that a live object owns. -/
+theorem C11_contract_violations_are_expressible_and_break_it :
+    Invariant heap ∧
+    -- (1) aliasing results / receivers
+    (viewResult.respects .fresh = false ∧ ¬ Sep (exec heap viewResult).1 ∧
+      sharingEdges (exec heap viewResult).1 = [(0, 3)] ∧
+      observeAt (applyPrim (exec heap viewResult).1 0 (.writeCps [0, 0, 0])) 3 ≠ observeAt (exec heap viewResult).1 3) ∧
+    (sharedBasis.respects .fresh = false ∧ ¬ Sep (exec heap sharedBasis).1 ∧
+      sharingEdges (exec heap sharedBasis).1 = [(0, 3)]) ∧
+    (retainsOperand.respects .inPlace = false ∧ ¬ Sep (exec heap retainsOperand).1 ∧
+      sharingEdges (exec heap retainsOperand).1 = [(0, 2)]) ∧
+    -- (2) a "fresh" operation writing through its operand
+    (writesOperand.respects .fresh = false ∧ Invariant (exec heap writesOperand).1 ∧
+      observeAt (exec heap writesOperand).1 0 ≠ observeAt heap 0 ∧ writeSet heap (exec heap writesOperand).1 = [0]) ∧
+    -- (3) a "query" returning a view
+    (returnsView.respects .query = false ∧ (exec heap returnsView).2 = .buffer 1 ∧
+      bufferSharers (exec heap returnsView).1 1 = [0]) := by
+  have notSep : ∀ g : Heap, sepB g = false → wfB g = true → ¬ Sep g := by
+    intro g hb _ hs
+    have : sharingEdges g = [] := sharingEdges_nil_of_sep hs
+    -- sepB g = false means some pair shares state; then sharingEdges is non-empty
+    have hcontra : sepB g = true := by
+      simp only [sepB, List.all_eq_true, List.mem_range]
+      intro i hi j hj
+      by_cases hij : i = j
+      · simp [hij]
+      · cases ha : g.objs[i]? with
+        | none => simp
+        | some a =>
+          cases hbj : g.objs[j]? with
+          | none => simp
+          | some b => simp [sharesState_false_of_sep hs hij ha hbj]
+    rw [hb] at hcontra; exact Bool.noConfusion hcontra
+  refine ⟨⟨wfB_sound (by decide), sepB_sound (by decide)⟩, ⟨by decide, notSep _ (by decide) (by decide), by decide, by decide⟩,
+    ⟨by decide, notSep _ (by decide) (by decide), by decide⟩, ⟨by decide, notSep _ (by decide) (by decide), by decide⟩,
+    ⟨by decide, ⟨wfB_sound (by decide), sepB_sound (by decide)⟩, by decide, by decide⟩, ⟨by decide, by decide, by decide⟩⟩
